@@ -25,65 +25,85 @@ fn psbt_flow(cfg: &RunCfg, rep: &mut Report, world: &World, i: u64) {
         Some(s) => s,
         None => return,
     };
-    let mut psbt = fresh_psbt(&s);
     let n = s.inputs.len();
-    for k in 0..n {
-        if !matches!(apply(world, &s, &mut psbt, &Op::Update(k)), Outcome::Ok) {
-            rep.count("psbt: update refused");
+    // pass 0: every key signs. pass 1: a random subset of the keys signs (the same subset for the
+    // direct satisfier); inputs with uncompressed keys sit out, because a PSBT cannot name an
+    // uncompressed key that has not signed while the direct satisfier knows every key
+    for pass in 0..2 {
+        let mut psbt = fresh_psbt(&s);
+        let mut signers: Vec<std::collections::BTreeSet<usize>> = vec![];
+        let mut ok = true;
+        for k in 0..n {
+            if !matches!(apply(world, &s, &mut psbt, &Op::Update(k)), Outcome::Ok) {
+                rep.count("psbt: update refused");
+                ok = false;
+                break;
+            }
+            let mut set = std::collections::BTreeSet::new();
+            for id in s.inputs[k].case.key_ids() {
+                if pass == 0 || rng.coin() {
+                    set.insert(id);
+                    apply(world, &s, &mut psbt, &Op::AddSig(k, id));
+                }
+            }
+            signers.push(set);
+            for p in s.inputs[k].case.pre_ids() {
+                apply(world, &s, &mut psbt, &Op::AddPre(k, p));
+            }
+        }
+        if !ok {
             return;
         }
-        for id in s.inputs[k].case.key_ids() {
-            apply(world, &s, &mut psbt, &Op::AddSig(k, id));
-        }
-        for p in s.inputs[k].case.pre_ids() {
-            apply(world, &s, &mut psbt, &Op::AddPre(k, p));
-        }
-    }
-    for k in 0..n {
-        let ip = &s.inputs[k];
-        let spend = Spend { tx: s.tx.clone(), prevouts: s.prevouts.clone(), idx: k };
-        let mut assets = Assets::new(world, &spend, ip.target.ecdsa.clone());
-        assets.keys.extend(ip.case.key_ids());
-        assets.pre.extend(ip.case.pre_ids());
-        for mall in [true, false] {
-            let direct = guarded(std::panic::AssertUnwindSafe(|| {
-                let sat = satisfier(&assets, &ip.target);
-                if mall {
-                    ip.desc.get_satisfaction_mall(&sat)
-                } else {
-                    ip.desc.get_satisfaction(&sat)
-                }
-            }));
-            let (w, ss) = match direct {
-                Ok(Ok(x)) => x,
-                _ => {
-                    rep.count("psbt: the direct satisfier refuses too (locks unmet)");
-                    continue;
-                }
-            };
-            let txc = TxCtx { tx: &s.tx, idx: k, prevouts: &s.prevouts };
-            if verify_input(&ip.target.spk, ss.as_bytes(), &w, &txc, Flags::STANDARD, &world.secp).is_err() {
-                rep.count("psbt: direct witness not valid (C01's business)");
+        for k in 0..n {
+            let ip = &s.inputs[k];
+            if pass == 1 && ip.case.frags.iter().any(|f| f.keys().iter().any(|kr| kr.form == crate::frag::KeyForm::Uncompressed)) {
+                rep.count("psbt: subset pass skipped (uncompressed keys)");
                 continue;
             }
-            rep.eval();
-            let mut c = psbt.clone();
-            let r = guarded(std::panic::AssertUnwindSafe(|| if mall { c.finalize_inp_mall_mut(&world.secp, k).map_err(|e| e.to_string()) } else { c.finalize_inp_mut(&world.secp, k).map_err(|e| e.to_string()) }));
-            match r {
-                Ok(Ok(())) => {
-                    rep.count("psbt: finalizer finds a satisfaction where the direct satisfier does");
-                    rep.nontrivial(&format!("psbt|{}|{}|{}", ip.case.desc, mall, s.tx.lock_time));
+            let spend = Spend { tx: s.tx.clone(), prevouts: s.prevouts.clone(), idx: k };
+            let mut assets = Assets::new(world, &spend, ip.target.ecdsa.clone());
+            assets.keys.extend(signers[k].iter().cloned());
+            assets.pre.extend(ip.case.pre_ids());
+            for mall in [true, false] {
+                let direct = guarded(std::panic::AssertUnwindSafe(|| {
+                    let sat = satisfier(&assets, &ip.target);
+                    if mall {
+                        ip.desc.get_satisfaction_mall(&sat)
+                    } else {
+                        ip.desc.get_satisfaction(&sat)
+                    }
+                }));
+                let (w, ss) = match direct {
+                    Ok(Ok(x)) => x,
+                    _ => {
+                        rep.count("psbt: the direct satisfier refuses too");
+                        continue;
+                    }
+                };
+                let txc = TxCtx { tx: &s.tx, idx: k, prevouts: &s.prevouts };
+                if verify_input(&ip.target.spk, ss.as_bytes(), &w, &txc, Flags::STANDARD, &world.secp).is_err() {
+                    rep.count("psbt: direct witness not valid (C01's business)");
+                    continue;
                 }
-                Ok(Err(e)) => rep.violation(
-                    i,
-                    format!("C02:refused-but-satisfiable:finalize_inp{}:{:?}", if mall { "_mall" } else { "" }, ip.case.kind),
-                    format!(
-                        "input {} = {} carries every signature and preimage; get_satisfaction{} with the same signatures yields a witness that verifies under STANDARD (scriptSig={} witness=[{}]), but finalize_inp{}_mut fails: {} (tx version {}, nLockTime {}, nSequence {:#x})",
-                        k, ip.case.desc, if mall { "_mall" } else { "" }, hex(ss.as_bytes()), w.iter().map(|x| hex(x)).collect::<Vec<_>>().join(","), if mall { "_mall" } else { "" }, e,
-                        s.tx.version.0, s.tx.lock_time.to_consensus_u32(), s.tx.input[k].sequence.0
+                rep.eval();
+                let mut c = psbt.clone();
+                let r = guarded(std::panic::AssertUnwindSafe(|| if mall { c.finalize_inp_mall_mut(&world.secp, k).map_err(|e| e.to_string()) } else { c.finalize_inp_mut(&world.secp, k).map_err(|e| e.to_string()) }));
+                match r {
+                    Ok(Ok(())) => {
+                        rep.count(if pass == 0 { "psbt: finalizer finds a satisfaction where the direct satisfier does" } else { "psbt: finalizer finds a satisfaction where the direct satisfier does (subset of signers)" });
+                        rep.nontrivial(&format!("psbt|{}|{}|{}|{:?}", ip.case.desc, mall, s.tx.lock_time, signers[k]));
+                    }
+                    Ok(Err(e)) => rep.violation(
+                        i,
+                        format!("C02:refused-but-satisfiable:finalize_inp{}:{:?}{}", if mall { "_mall" } else { "" }, ip.case.kind, if pass == 1 { ":subset" } else { "" }),
+                        format!(
+                            "input {} = {} carries the signatures of keys {:?} and every preimage; get_satisfaction{} with the same signatures yields a witness that verifies under STANDARD (scriptSig={} witness=[{}]), but finalize_inp{}_mut fails: {} (tx version {}, nLockTime {}, nSequence {:#x})",
+                            k, ip.case.desc, signers[k], if mall { "_mall" } else { "" }, hex(ss.as_bytes()), w.iter().map(|x| hex(x)).collect::<Vec<_>>().join(","), if mall { "_mall" } else { "" }, e,
+                            s.tx.version.0, s.tx.lock_time.to_consensus_u32(), s.tx.input[k].sequence.0
+                        ),
                     ),
-                ),
-                Err(_) => rep.count("psbt: finalizer panicked (C11's business)"),
+                    Err(_) => rep.count("psbt: finalizer panicked (C11's business)"),
+                }
             }
         }
     }
